@@ -36,9 +36,8 @@ theorem em_progress (hr : cfg.repaired = true) (hi : Inv cfg s) :
     | flushed =>
       refine .inr (.inr (.inr (canStep_em ?_)))
       simp only [emStep, hem, hst, if_true]
-      split
-      · rfl
-      · split <;> rfl
+      repeat' split
+      all_goals rfl
     | held => exact .inr (.inr (.inl ⟨it, rfl, hst⟩))
   | failed it =>
     exact .inr (.inr (.inr (canStep_em (by simp [emStep, hem, hr]))))
